@@ -383,17 +383,17 @@ pub fn run(tier: &str, seed: u64) -> i32 {
         if tier == "thorough" { 60_000 } else { 4_000 },
         || {
             (
-                prop::collection::vec((0u8..6, prop::sample::select(vec!["=", ">", ">=", "<", "<="]), -2i64..8, 0u8..4), 3..=5),
+                prop::collection::vec((0u8..6, prop::sample::select(vec!["=", ">", ">=", "<", "<="]), -2i64..8, 0u8..4, 0u8..10), 3..=5),
                 prop::collection::vec((0u8..8, -2i64..9), 6),
                 any::<bool>(),
             )
         },
-        |(blocks, vals, negate): &(Vec<(u8, &str, i64, u8)>, Vec<(u8, i64)>, bool)| {
+        |(blocks, vals, negate): &(Vec<(u8, &str, i64, u8, u8)>, Vec<(u8, i64)>, bool)| {
             // identifiers I0..Ik, each a conjunction of a (cast) numeric predicate on n / m and a
             // string predicate; condition I0 or I1 or ..
             let mut body = String::new();
             let mut names = vec![];
-            for (i, (kind, op, c, other)) in blocks.iter().enumerate() {
+            for (i, (kind, op, c, other, wrap)) in blocks.iter().enumerate() {
                 let field = if kind % 2 == 0 { "n" } else { "m" };
                 let pred = match kind / 2 {
                     0 => format!("    int({field}): '{op}{c}'\n"),
@@ -407,12 +407,24 @@ pub fn run(tier: &str, seed: u64) -> i32 {
                     _ => String::new(),
                 };
                 body.push_str(&format!("  I{i}:\n{pred}{second}"));
-                names.push(format!("I{i}"));
+                // the identifier alone, or and-ed in the condition with a comparison of a cast field
+                // and a constant, written field-first or constant-first (a matrix row that holds a
+                // comparison cell)
+                let cop = if *op == "=" { "==" } else { op };
+                let other_field = if field == "n" { "m" } else { "n" };
+                names.push(match wrap {
+                    4 => format!("(I{i} and int({other_field}) {cop} {})", c + 1),
+                    5 => format!("(I{i} and {} {cop} int({other_field}))", c + 1),
+                    6 => format!("({c}.5 {cop} flt({field}) and I{i})"),
+                    7 => format!("(I{i} and {} {cop} int({field}))", c - 1),
+                    8 => format!("(flt({other_field}) {cop} {c}.5 and I{i})"),
+                    _ => format!("I{i}"),
+                });
             }
             // now and then a field-to-field comparison (only the condition can express it) joins
             // the chain
             let mut operands = names.clone();
-            if let Some((k, op, _, _)) = blocks.first() {
+            if let Some((k, op, _, _, _)) = blocks.first() {
                 match k % 3 {
                     0 => operands.insert(1, format!("int(n) {} int(m)", if *op == "=" { "==" } else { op })),
                     1 => operands.push(format!("flt(m) {} flt(n)", if *op == "=" { "==" } else { op })),
@@ -447,6 +459,83 @@ pub fn run(tier: &str, seed: u64) -> i32 {
         },
         judge,
         |_, rep| rep.label("disjunction_of_cast_conjunctions"),
+    );
+    // long lists of integers: a run lo..hi with some members left out and some written twice (so
+    // that the count of entries says nothing about the holes), as bare numbers or `=n` patterns,
+    // under a plain key, int(), str() or not(); the field takes every value of the span and its
+    // neighbours, as signed / unsigned integer, numeric string and double
+    gen::drive(
+        &mut report,
+        7,
+        if tier == "thorough" { 30_000 } else { 1_500 },
+        || {
+            (
+                prop_oneof![Just(0i64), Just(80), Just(-20), Just(i64::MAX - 40), Just(i64::MIN), -100i64..100],
+                8usize..40,
+                prop::collection::vec(any::<u16>(), 0..4),
+                prop::collection::vec(any::<u16>(), 0..4),
+                0u8..5,
+                0u8..3,
+                any::<u16>(),
+            )
+        },
+        |(lo, len, holes, dups, key, spelling, rot): &(i64, usize, Vec<u16>, Vec<u16>, u8, u8, u16)| {
+            let span: Vec<i64> = (0..*len as i64).map(|i| lo.saturating_add(i)).collect();
+            let inner = |p: &u16| 1 + ((*p as usize * (span.len() - 2)) >> 16);
+            let hole_at: Vec<usize> = holes.iter().map(inner).collect();
+            let mut members: Vec<i64> = span.iter().enumerate().filter(|(i, _)| !hole_at.contains(i)).map(|(_, v)| *v).collect();
+            for d in dups {
+                let v = members[(*d as usize * members.len()) >> 16];
+                members.push(v);
+            }
+            let r = (*rot as usize * members.len()) >> 16;
+            members.rotate_left(r);
+            let key_text = match key {
+                0 | 1 => "n".to_string(),
+                2 => "int(n)".to_string(),
+                3 => "not(n)".to_string(),
+                _ => "str(n)".to_string(),
+            };
+            let mut body = format!("    {key_text}:\n");
+            for (i, m) in members.iter().enumerate() {
+                match (spelling, i % 2) {
+                    (0, _) | (2, 0) => body.push_str(&format!("    - {m}\n")),
+                    _ => body.push_str(&format!("    - '={m}'\n")),
+                }
+            }
+            if *key == 4 {
+                // under str() the members are texts
+                body = format!("    {key_text}:\n");
+                for m in &members {
+                    body.push_str(&format!("    - '{m}'\n"));
+                }
+            }
+            let mut docs = vec![DObj::default()];
+            for v in std::iter::once(lo.saturating_sub(1)).chain(span.iter().cloned()).chain(std::iter::once(span.last().unwrap().saturating_add(1))) {
+                docs.push(DObj(vec![("n".to_string(), DocVal::Int(v))]));
+                if v >= 0 {
+                    docs.push(DObj(vec![("n".to_string(), DocVal::UInt(v as u64))]));
+                }
+                if hole_at.iter().any(|h| span[*h] == v) || v % 5 == 0 {
+                    docs.push(DObj(vec![("n".to_string(), DocVal::Str(v.to_string()))]));
+                    if v.unsigned_abs() < (1 << 52) {
+                        docs.push(DObj(vec![("n".to_string(), DocVal::Float(v as f64))]));
+                    }
+                }
+            }
+            let mut c = Case::new("c09.integer_list");
+            c.rules = rule_texts(&body, "A");
+            c.docs = docs;
+            c.extra = json!({"form": "integer-list", "members": members.len(), "holes": hole_at.len(), "duplicates": dups.len()});
+            vec![c]
+        },
+        judge,
+        |(_, _, holes, dups, _, _, _), rep| {
+            rep.label("long_integer_list");
+            if !holes.is_empty() && holes.len() == dups.len() {
+                rep.label("integer_list_duplicates_balance_holes");
+            }
+        },
     );
     report.finish()
 }
